@@ -118,7 +118,7 @@ mutual
     | _ :: _ => false
   def wfSpecB : Option Expr → Bool
     | none => true
-    | some (.joinedStr vs) => wfPartsB vs
+    | some (.joinedStr vs) => wfPartsB vs && specNoBrace vs
     | some _ => false
   def wfAB : Arguments → Bool
     | .mk po as _ ko kd _ ds =>
@@ -269,7 +269,8 @@ mutual
     | none, _ => by simp only [wfSpec]
     | some e, h => by
         cases e with
-        | joinedStr vs => simp only [wfSpecB] at h; simp only [wfSpec]; exact wfPartsB_sound vs h
+        | joinedStr vs =>
+          simp only [wfSpecB, Bool.and_eq_true] at h; simp only [wfSpec]; exact ⟨wfPartsB_sound vs h.1, h.2⟩
         | _ => simp [wfSpecB] at h
   theorem wfAB_sound : ∀ a, wfAB a = true → wfA a
     | .mk po as _ ko kd _ ds, h => by
